@@ -71,7 +71,11 @@ fn real_main() {
         });
     }
     let t0 = std::time::Instant::now();
-    let jobs = props::jobs(&prop, &tier);
+    let mut jobs = props::jobs(&prop, &tier);
+    // development aid (never used by a registered command): run only the configurations whose label contains VERIF_ONLY
+    if let Ok(only) = std::env::var("VERIF_ONLY") {
+        jobs.retain(|j| j.label().contains(&only));
+    }
     let extra = match prop.as_str() {
         "C10" => Some(grid::vclock_grid(tier == "quick")),
         "C14" => Some(grid::identifier_grid(tier == "quick")),
